@@ -15,6 +15,7 @@ func init() {
 	vrt.Register("C08_iterables", Iterables)
 	vrt.Register("C08_maps", Maps)
 	vrt.Register("C08_nested", Nested)
+	vrt.Register("C08_nil_elements", NilElements)
 }
 
 func maxLen() int { return 2 + 2*vrt.Tier() }
@@ -380,5 +381,41 @@ func Nested() {
 	vrt.Note("got", got)
 	vrt.Assert(err == nil, "break/continue are accepted anywhere inside a loop body, however nested")
 	vrt.Assert(got == "["+want+"]", "nested loops: output equals the unrolled body")
+	vrt.Cover("done")
+}
+
+// nil elements / nil map values are bound as nil, also when an outer variable
+// (a context value, a let, or an enclosing loop's variable) has the same name
+func NilElements() {
+	x, outer := vrt.Int(), vrt.Int()
+	ctx := plush.NewContext()
+	ctx.Set("v", outer)
+	ctx.Set("k", outer)
+	ctx.Set("xs", []interface{}{x, nil, "s"})
+	ctx.Set("m", map[string]interface{}{"a": nil})
+	ctx.Set("ps", []*int{nil, &x})
+	var in, want string
+	switch vrt.Choice(5) {
+	case 0:
+		in = "[<%= for (v) in xs { %>(<%= if (v) { %><%= v %><% } else { %>nil<% } %>)<% } %>]<%= v %>"
+		want = "[(" + itoa(x) + ")(nil)(s)]" + itoa(outer)
+	case 1:
+		in = "[<%= for (k, v) in m { %>(<%= k %>:<%= if (v) { %>set<% } else { %>nil<% } %>)<% } %>]<%= v %>"
+		want = "[(a:nil)]" + itoa(outer)
+	case 2: // nested loops that use the same variable name
+		in = "[<%= for (v) in [1, 2] { %><%= for (v) in xs { %>(<%= if (v) { %>set<% } else { %>nil<% } %>)<% } %>;<% } %>]"
+		want = "[(set)(nil)(set);(set)(nil)(set);]"
+	case 3:
+		in = "<% let v = 5 %>[<%= for (v) in [nil, 7] { %>(<%= if (v) { %><%= v %><% } else { %>nil<% } %>)<% } %>]<%= v %>"
+		want = "[(nil)(7)]5"
+	default:
+		in = "[<%= for (i, v) in ps { %>(<%= i %>:<%= if (v) { %>set<% } else { %>nil<% } %>)<% } %>]"
+		want = "[(0:nil)(1:set)]"
+	}
+	vrt.Note("input", in)
+	got, err := plush.Render(in, ctx)
+	vrt.Note("got", got)
+	vrt.Assert(err == nil, "a loop over nil elements renders")
+	vrt.Assert(got == want, "the loop variables are bound to each element in turn, nil elements included")
 	vrt.Cover("done")
 }
